@@ -1,25 +1,21 @@
 #!/usr/bin/env python3
-"""usage: run_benign_patches.py <props,comma-separated> [filter]
-Applies every patch of /verif/selftest/benign_patches to a scratch copy of /repo (removed afterwards) and runs the given quick
-checks: a behaviour-preserving refactoring must leave every check silent (exit 0)."""
-import os,json,subprocess,tempfile,shutil,glob,concurrent.futures,sys
-props=sys.argv[1].split(',')
+"""usage: run_benign_patches.py [filter]
+Applies every patch of /verif/selftest/benign_patches to a scratch copy of /repo (removed afterwards) and runs all
+20 quick checks on it (vischeck -matrix): a behaviour-preserving refactoring must leave every check silent (exit 0)."""
+import os,sys,glob,concurrent.futures
+sys.path.insert(0,os.path.dirname(os.path.abspath(__file__)))
+from matrixrun import run_matrix
 pats=sorted(glob.glob('/verif/selftest/benign_patches/*.diff'))
-flt=sys.argv[2] if len(sys.argv)>2 else ''
+flt=sys.argv[1] if len(sys.argv)>1 else ''
 def run(pf):
+    res,rules,lines=run_matrix(pf)
     sid=os.path.basename(pf)
-    S=tempfile.mkdtemp(prefix='variant.',dir='/tmp')
-    try:
-        os.makedirs(S+'/verif'); subprocess.check_call(['rsync','-a','--exclude','.git','/repo/',S+'/repo/'])
-        shutil.copy('/verif/known_findings.json',S+'/verif/'); open(S+'/verif/MANIFEST.json','w').write('{}')
-        if subprocess.run(['patch','-p1','-s','-i',pf],cwd=S+'/repo',capture_output=True).returncode!=0: return sid,'PATCH-FAILED'
-        bad=[]
-        for p in props:
-            r=subprocess.run(['/verif/bin/vischeck','-p',p,'-repo',S+'/repo','-verif',S+'/verif'],capture_output=True,text=True)
-            if r.returncode!=0:
-                bad.append(p+' exit %d: '%r.returncode+' | '.join(l[:300] for l in r.stdout.splitlines() if l.startswith(('VIOLATED','UNDECIDED','VACUOUS','ERROR')))[:1200])
-        return sid,bad
-    finally: shutil.rmtree(S,ignore_errors=True)
-with concurrent.futures.ThreadPoolExecutor(max_workers=8) as ex:
+    if res is None: return sid,'PATCH-FAILED'
+    bad=[p+' exit %d: '%rc+' | '.join(lines[p])[:1200] for p,rc in sorted(res.items()) if rc!=0]
+    return sid,bad
+n=0
+with concurrent.futures.ThreadPoolExecutor(max_workers=6) as ex:
     for sid,bad in ex.map(run,[p for p in pats if flt in p]):
-        print(sid,'silent' if not bad else bad)
+        n+=1
+        print(sid,'silent' if not bad else bad,flush=True)
+print('patches:',n)
